@@ -278,18 +278,28 @@ def holdsConj (board : Nat → Bool) : Nat → Formula → Option Bool
 /-- `sudoku|root|puzzle (hex, whitespace removed)|exit class|tree or ERR|solver rows or -` -/
 def handleC17 (fields : List String) : Verdict :=
   match fields with
+  | ["ws", codes] =>
+    -- the code points for which Rust's `char::is_whitespace` holds (asked of the standard library for every `char`),
+    -- against the table the model strips with (`Sudoku.whitespaceTable`)
+    let real := (codes.splitOn ",").filterMap (·.toNat?)
+    let same := real == Sudoku.whitespaceTable
+    { modelOk := same, modelOut := toString Sudoku.whitespaceTable, nontrivial := true,
+      oracle := none }
   | ["text", root, version, puzzle, bytes] =>
-    -- the bytes of the output against the text model (`Sudoku.text`): a recorded tie, not a verdict
+    -- the bytes of the output against the text model (`Sudoku.textOfRaw`, the puzzle text as it was given, white space
+    -- removed by the model): a recorded tie, not a verdict
     match root.toNat?, unhexStr version, unhexStr puzzle, unhexStr bytes with
     | some root, some v, some pz, some real =>
-      let same := real.toList == Sudoku.text v root pz.toList
+      let same := real.toList == Sudoku.textOfRaw v root pz.toList
       { modelOk := true, nontrivial := same, info := some (if same then "text-model.identical" else "text-model.differs") }
     | _, _, _, _ => Verdict.badLine "unreadable text line"
   | ["sudoku", root, puzzle, cls, ast, solver] =>
     match root.toNat?, unhexStr puzzle with
-    | some r, some ptext =>
+    | some r, some praw =>
       let sq := r * r
-      let givens : List (Option Nat) := ptext.toList.map (fun ch => if ch.isDigit then some (ch.toNat - '0'.toNat) else none)
+      -- the puzzle text arrives as it was given; the model removes the white space (`Sudoku.strip`)
+      let ptext := Sudoku.strip praw.toList
+      let givens : List (Option Nat) := ptext.map (fun ch => if ch.isDigit then some (ch.toNat - '0'.toNat) else none)
       let inScope := (givens.take (sq * sq)).all (fun g => match g with
         | some d => 1 ≤ d && d ≤ sq
         | none => true)
